@@ -86,9 +86,10 @@ class JsonDB(object):
 
     def dump(self):
         """save DB content in file"""
+        data = self.codec.encode(self._db)
         try:
             db_file = open(self.name, 'w')
-            db_file.write(self.codec.encode(self._db))
+            db_file.write(data)
         finally:
             db_file.close()
 
@@ -536,6 +537,10 @@ class Dependency(object):
 
         :param str result_hash: explicitly set result_hash
         """
+        # values / result that the DB can not store must not get into it
+        # (raises TypeError / ValueError, handled by the runner)
+        self.backend.codec.encode([task.values, task.result])
+
         # save task values
         self._set(task.name, "_values_:", task.values)
 
